@@ -238,7 +238,6 @@ Qed.
 (* ------------------------------------------------------------------------------------------------ *)
 Section RegFacts.
   Variable env : cid -> cbeh.
-  Notation Inv := (Inv env).
   Notation register := (register env).
   Notation step := (step env).
   Notation run := (run env).
@@ -278,9 +277,27 @@ Section RegFacts.
       + right. pose proof (Htio n Hin); subst. split; [reflexivity|]. apply Hti; exact Hin.
   Qed.
 
+  (* the names recorded for c *)
+  Lemma recorded_in r c n : Inv r -> (In n (recorded r c) <-> claims r c n).
+  Proof.
+    intro H. unfold recorded, claims. destruct (d_find N.eqb (c2n r) c) as [ns|] eqn:E.
+    - apply (inv_find_c2n r c ns H) in E. split.
+      + intro Hn. exists ns; auto.
+      + intros (ns' & H1 & H2). inv_destruct H.
+        pose proof (nodup_keys_fun N.eqb N_eqb_iff _ _ _ _ Hnc H1 E). subst; exact H2.
+    - split; [intros []|]. intros (ns' & H1 & _).
+      apply (d_find_none_iff N.eqb N_eqb_iff) in E. exfalso; apply E. eapply in_keys; eauto.
+  Qed.
+
+  Lemma recorded_nodup r c : Inv r -> NoDup (recorded r c).
+  Proof.
+    intro H. unfold recorded. destruct (d_find N.eqb (c2n r) c) as [ns|] eqn:E; [|constructor].
+    apply (inv_find_c2n r c ns H) in E. inv_destruct H. apply (Hc2n c ns E).
+  Qed.
+
   (* ---- register ---- *)
-  Lemma register_fail_unchanged gn r c r' e :
-    register_gen env gn r c = (r', Some e) -> r' = r /\ e = ValueError.
+  Lemma register_fail_unchanged gn mg r c r' e :
+    register_gen env gn mg r c = (r', Some e) -> r' = r /\ e = ValueError.
   Proof.
     unfold register_gen. destruct (existsb _ _); intro H; inversion H; auto.
   Qed.
@@ -300,7 +317,7 @@ Section RegFacts.
   Lemma register_ok_shape r c :
     snd (register r c) = None ->
     fst (register r c) =
-      mk_reg (d_set N.eqb (c2n r) c (get_names (auto r) (env c)))
+      mk_reg (d_set N.eqb (c2n r) c (recorded r c ++ get_names (auto r) (env c)))
              (n2c r ++ map (fun n => (n, Coll c)) (get_names (auto r) (env c))) (ti r) (auto r).
   Proof.
     intro H. pose proof (proj1 (register_outcome r c) H) as F.
@@ -320,33 +337,38 @@ Section RegFacts.
     - rewrite register_fail_fst by congruence. exact H.
     - rewrite (register_ok_shape r c Eo).
       pose proof (proj1 (register_outcome r c) Eo) as F.
+      pose proof (recorded_in r c) as Hrec. pose proof (recorded_nodup r c H) as NDold.
       pose proof H as H'. inv_destruct H.
       set (names := get_names (auto r) (env c)) in *.
+      set (old := recorded r c) in *.
       assert (ND : NoDup names) by apply get_names_nodup.
-      (* if c was registered already its names are [names], all in n2c, hence there are none *)
-      assert (Hold : forall ns, In (c, ns) (c2n r) -> forall n, In n ns -> False).
-      { intros ns Hin n Hn. destruct (Hc2n c ns Hin) as (_ & E & Hall). subst ns.
-        apply (F n Hn). eapply in_keys. apply Hall; exact Hn. }
+      (* the names recorded earlier are in the map, the new ones are not *)
+      assert (Hold : forall n, In n old -> In (n, Coll c) (n2c r)).
+      { intros n Hn. apply (inv_claims_iff r c n H'). apply (Hrec n H'). exact Hn. }
+      assert (NDall : NoDup (old ++ names)).
+      { apply nodup_app; auto. intros x Hx Hx'. apply (F x Hx'). eapply in_keys. apply Hold; exact Hx. }
       unfold RegistrySpec.Inv; simpl. repeat split.
       + rewrite map_app, map_map. simpl. rewrite map_id. apply nodup_app; auto.
         intros x Hx Hx'. apply (F x Hx' Hx).
       + apply (d_set_nodup N.eqb N_eqb_iff); assumption.
       + apply (d_set_in N.eqb N_eqb_iff) in H; [|assumption].
-        destruct H as [[-> ->]|[Hne Hin]]; [exact ND|apply (Hc2n c0 ns Hin)].
-      + apply (d_set_in N.eqb N_eqb_iff) in H; [|assumption].
-        destruct H as [[-> ->]|[Hne Hin]]; [reflexivity|apply (Hc2n c0 ns Hin)].
+        destruct H as [[-> ->]|[Hne Hin]]; [exact NDall|apply (Hc2n c0 ns Hin)].
       + intros n Hn. apply (d_set_in N.eqb N_eqb_iff) in H; [|assumption].
         rewrite in_app_iff.
         destruct H as [[-> ->]|[Hne Hin]].
-        * right. apply in_map_iff. exists n; auto.
+        * apply in_app_iff in Hn. destruct Hn as [Hn|Hn]; [left; apply Hold; exact Hn|].
+          right. apply in_map_iff. exists n; auto.
         * left. apply (Hc2n c0 ns Hin); exact Hn.
       + intros n c0 Hin. rewrite in_app_iff in Hin. destruct Hin as [Hin|Hin].
-        * destruct (Hn2c n c0 Hin) as (ns & H1 & H2).
-          exists ns. split; [|exact H2].
-          apply (d_set_in N.eqb N_eqb_iff); [assumption|].
-          right. split; [|exact H1]. intro; subst c0. exact (Hold ns H1 n H2).
+        * destruct (N.eq_dec c0 c) as [->|Hne].
+          -- exists (old ++ names). split.
+             ++ apply (d_set_in N.eqb N_eqb_iff); [assumption|]. left; auto.
+             ++ apply in_app_iff. left. apply (Hrec n H'). apply (inv_claims_iff r c n H'). exact Hin.
+          -- destruct (Hn2c n c0 Hin) as (ns & H1 & H2).
+             exists ns. split; [|exact H2].
+             apply (d_set_in N.eqb N_eqb_iff); [assumption|]. right. auto.
         * apply in_map_iff in Hin. destruct Hin as (n' & E & Hn'). inversion E; subst.
-          exists names. split; [|exact Hn'].
+          exists (old ++ names). split; [|apply in_app_iff; right; exact Hn'].
           apply (d_set_in N.eqb N_eqb_iff); [assumption|]. left; auto.
       + intro Hin. apply Hti. rewrite in_app_iff in Hin. destruct Hin as [Hin|Hin]; [exact Hin|].
         apply in_map_iff in Hin. destruct Hin as (n' & E & _). discriminate.
@@ -390,7 +412,7 @@ Section RegFacts.
   Proof.
     intros H Hin. pose proof H as H'. inv_destruct H.
     unfold unregister. rewrite (proj2 (inv_find_c2n r c ns H') Hin).
-    destruct (Hc2n c ns Hin) as (NDns & _ & Hall).
+    destruct (Hc2n c ns Hin) as (NDns & Hall).
     destruct (del_names_ok ns (n2c r) Hnn NDns) as (d' & E & ND' & Hd').
     - intros n Hn. eapply in_keys. apply Hall; exact Hn.
     - rewrite E. exists d'. auto.
@@ -409,12 +431,11 @@ Section RegFacts.
       + exact ND'.
       + apply (d_remove_nodup N.eqb N_eqb_iff); assumption.
       + apply Hrm in H. apply (Hc2n c0 ns0); tauto.
-      + apply Hrm in H. apply (Hc2n c0 ns0); tauto.
       + intros n Hn. apply Hrm in H. destruct H as [Hne Hin].
         apply Hd'. split; [apply (Hc2n c0 ns0 Hin); exact Hn|].
         intro Hn'. apply Hne.
-        pose proof (proj2 (proj2 (Hc2n c0 ns0 Hin)) n Hn) as O1.
-        pose proof (proj2 (proj2 (Hc2n c ns Ef)) n Hn') as O2.
+        pose proof (proj2 (Hc2n c0 ns0 Hin) n Hn) as O1.
+        pose proof (proj2 (Hc2n c ns Ef) n Hn') as O2.
         pose proof (nodup_keys_fun str_eqb str_eqb_eq _ _ _ _ Hnn O1 O2) as E2. congruence.
       + intros n c0 Hin. apply Hd' in Hin. destruct Hin as [Hin Hnot].
         destruct (Hn2c n c0 Hin) as (ns0 & H1 & H2). exists ns0. split; [|exact H2].
@@ -422,7 +443,7 @@ Section RegFacts.
         pose proof (nodup_keys_fun N.eqb N_eqb_iff _ _ _ _ Hnc H1 Ef); subst. tauto.
       + intro Hin. apply Hd' in Hin. apply Hti; tauto.
       + intro Ht. apply Hd'. split; [apply Hti; exact Ht|].
-        intro Hn. pose proof (proj2 (proj2 (Hc2n c ns Ef)) _ Hn) as O2.
+        intro Hn. pose proof (proj2 (Hc2n c ns Ef) _ Hn) as O2.
         apply Hti in Ht. pose proof (nodup_keys_fun str_eqb str_eqb_eq _ _ _ _ Hnn O2 Ht). discriminate.
       + intros n Hin. apply Hd' in Hin. apply Htio; tauto.
     - unfold unregister. rewrite Ef. exact H.
@@ -461,9 +482,8 @@ Section RegFacts.
       + apply (d_set_nodup str_eqb str_eqb_eq); assumption.
       + assumption.
       + apply (Hc2n c ns H).
-      + apply (Hc2n c ns H).
       + intros n Hn. apply Hset. right.
-        pose proof (proj2 (proj2 (Hc2n c ns H)) n Hn) as O. split; [|exact O].
+        pose proof (proj2 (Hc2n c ns H) n Hn) as O. split; [|exact O].
         intro; subst. exact (Hfree c O).
       + intros n c Hin. apply Hset in Hin. destruct Hin as [[_ E]|[_ Hin]]; [discriminate|]. apply Hn2c; exact Hin.
       + intros _. exact El.
@@ -478,8 +498,7 @@ Section RegFacts.
         * apply (d_remove_nodup str_eqb str_eqb_eq); assumption.
         * assumption.
         * apply (Hc2n c ns H).
-        * apply (Hc2n c ns H).
-        * intros n Hn. apply Hrm. pose proof (proj2 (proj2 (Hc2n c ns H)) n Hn) as O. split; [|exact O].
+        * intros n Hn. apply Hrm. pose proof (proj2 (Hc2n c ns H) n Hn) as O. split; [|exact O].
           intro; subst. pose proof (nodup_keys_fun str_eqb str_eqb_eq _ _ _ _ Hnn O Hown). discriminate.
         * intros n c Hin. apply Hrm in Hin. apply Hn2c; tauto.
         * intro Hin. apply Hrm in Hin. tauto.
@@ -489,14 +508,13 @@ Section RegFacts.
         unfold RegistrySpec.Inv; simpl. repeat split; try assumption.
         * apply (Hc2n c ns H).
         * apply (Hc2n c ns H).
-        * apply (Hc2n c ns H).
         * intro Hin. apply Hti in Hin. congruence.
         * intro Hne; congruence.
   Qed.
 
   Lemma Inv_step r o : Inv r -> Inv (fst (step r o)).
   Proof.
-    destruct o; simpl; [apply Inv_register|apply Inv_unregister|apply Inv_set_target_info].
+    destruct o; simpl; [apply Inv_register|apply Inv_unregister|apply Inv_set_target_info|auto].
   Qed.
 
   Lemma Inv_run ops : forall r, Inv r -> Inv (run r ops).
@@ -523,12 +541,12 @@ Section RegFacts.
     pose proof (nodup_keys_fun str_eqb str_eqb_eq _ _ _ _ Hnn Hc Ht). discriminate.
   Qed.
 
-  Lemma claims_are_described r c n : Inv r -> registered r c ->
+  Lemma claims_are_described r c n : InvS env r -> registered r c ->
     (claims r c n <-> In n (names_of_desc (described (auto r) (env c)))).
   Proof.
-    intros H Hr. pose proof H as H'. inv_destruct H.
+    intros [H Hs] Hr. pose proof H as H'. inv_destruct H.
     unfold registered in Hr. apply in_map_iff in Hr. destruct Hr as ([c' ns] & E & Hin). simpl in E; subst c'.
-    destruct (Hc2n c ns Hin) as (_ & Ens & _).
+    pose proof (Hs c ns Hin) as Ens.
     rewrite <- (get_names_in (auto r) (env c) n). fold (get_names (auto r) (env c)). rewrite <- Ens.
     split.
     - intros (ns' & H1 & H2). pose proof (nodup_keys_fun N.eqb N_eqb_iff _ _ _ _ Hnc H1 Hin). subst; exact H2.
@@ -550,22 +568,25 @@ Section RegFacts.
     /\ registered (fst (register r c)) c
     /\ ti (fst (register r c)) = ti r /\ auto (fst (register r c)) = auto r.
   Proof.
-    intros H Eo. pose proof (proj1 (register_outcome r c) Eo) as F.
+    intros H Eo. pose proof (recorded_in r c) as Hrec.
     rewrite (register_ok_shape r c Eo). pose proof H as H'. inv_destruct H.
     set (names := get_names (auto r) (env c)) in *.
-    assert (Hold : forall ns, In (c, ns) (c2n r) -> forall n, In n ns -> False).
-    { intros ns Hin n Hn. destruct (Hc2n c ns Hin) as (_ & E & Hall). subst ns.
-      apply (F n Hn). eapply in_keys. apply Hall; exact Hn. }
+    set (old := recorded r c) in *.
     simpl. split; [|split; [|split; reflexivity]].
-    - intros c' n. unfold claims; simpl. split.
+    - intros c' n. unfold claims at 1; simpl. split.
       + intros (ns & H1 & H2). apply (d_set_in N.eqb N_eqb_iff) in H1; [|assumption].
         destruct H1 as [[-> ->]|[Hne Hin]].
-        * right. split; [reflexivity|]. apply get_names_in; exact H2.
+        * apply in_app_iff in H2. destruct H2 as [H2|H2].
+          -- left. apply (Hrec n H'). exact H2.
+          -- right. split; [reflexivity|]. apply get_names_in; exact H2.
         * left. exists ns; auto.
-      + intros [(ns & H1 & H2)|[-> Hn]].
-        * exists ns. split; [|exact H2]. apply (d_set_in N.eqb N_eqb_iff); [assumption|].
-          right. split; [|exact H1]. intro; subst. exact (Hold ns H1 n H2).
-        * exists names. split; [|apply get_names_in; exact Hn].
+      + intros [Hc|[-> Hn]].
+        * destruct (N.eq_dec c' c) as [->|Hne].
+          -- exists (old ++ names). split; [|apply in_app_iff; left; apply (Hrec n H'); exact Hc].
+             apply (d_set_in N.eqb N_eqb_iff); [assumption|]. left; auto.
+          -- destruct Hc as (ns & H1 & H2). exists ns. split; [|exact H2].
+             apply (d_set_in N.eqb N_eqb_iff); [assumption|]. right; auto.
+        * exists (old ++ names). split; [|apply in_app_iff; right; apply get_names_in; exact Hn].
           apply (d_set_in N.eqb N_eqb_iff); [assumption|]. left; auto.
     - unfold registered; simpl. rewrite (d_set_keys N.eqb).
       destruct (d_mem N.eqb (c2n r) c) eqn:E.
@@ -638,12 +659,49 @@ Section RegFacts.
     inv_destruct H. pose proof (nodup_keys_fun N.eqb N_eqb_iff _ _ _ _ Hnc H1 Hin). subst; exact H2.
   Qed.
 
-  Lemma reregister_after_unregister r c : Inv r -> registered r c ->
+  Lemma reregister_after_unregister r c : InvS env r -> registered r c ->
     snd (register (fst (unregister r c)) c) = None.
   Proof.
-    intros H Hr. apply blocked_registers_after_unregister; auto.
-    intros n Hn _. apply (claims_are_described r c n H Hr). exact Hn.
+    intros Hs Hr. pose proof (proj1 Hs) as H. apply blocked_registers_after_unregister; auto.
+    intros n Hn _. apply (claims_are_described r c n Hs Hr). exact Hn.
   Qed.
+
+  (* ---- while no collector changes, the recorded names stay the described ones ---- *)
+  Lemma InvS_step r o : InvS env r -> InvS env (fst (step r o)).
+  Proof.
+    intros [H Hs]. split; [apply Inv_step; exact H|].
+    destruct o as [c|c|l|]; simpl; [| | |exact Hs].
+    - fold (register r c). destruct (snd (register r c)) eqn:Eo.
+      + rewrite register_fail_fst by congruence. exact Hs.
+      + pose proof (proj1 (register_outcome r c) Eo) as F.
+        pose proof (recorded_in r c) as Hrec.
+        rewrite (register_ok_shape r c Eo). simpl. pose proof H as H'. inv_destruct H.
+        intros c' ns' Hin. apply (d_set_in N.eqb N_eqb_iff) in Hin; [|assumption].
+        destruct Hin as [[-> ->]|[Hne Hin]]; [|apply Hs; exact Hin].
+        (* names recorded earlier would be both described now and in the map: there are none *)
+        assert (E : recorded r c = []).
+        { destruct (recorded r c) as [|n l] eqn:El; [reflexivity|exfalso].
+          pose proof (proj1 (Hrec n H') (or_introl eq_refl)) as Hc. destruct Hc as (ns & H1 & H2).
+          pose proof (Hs c ns H1) as Ens. subst ns.
+          apply (F n H2). eapply in_keys. apply (Hc2n c _ H1). exact H2. }
+        rewrite E. reflexivity.
+    - destruct (d_find N.eqb (c2n r) c) as [ns|] eqn:Ef.
+      + apply (inv_find_c2n r c ns H) in Ef.
+        destruct (unregister_registered r c ns H Ef) as (d' & E & _). rewrite E; simpl.
+        intros c' ns' Hin. inv_destruct H. apply (d_remove_in N.eqb N_eqb_iff) in Hin; [|assumption].
+        apply Hs; tauto.
+      + unfold unregister. rewrite Ef. exact Hs.
+    - unfold set_target_info. destruct (nonempty l); [destruct (_ && _)|]; simpl; exact Hs.
+  Qed.
+
+  Lemma InvS_run ops : forall r, InvS env r -> InvS env (run r ops).
+  Proof.
+    induction ops as [|o ops IH]; simpl; intros r H; [exact H|].
+    apply IH. apply InvS_step; exact H.
+  Qed.
+
+  Lemma InvS_reachable a ops : InvS env (run (empty_reg a) ops).
+  Proof. apply InvS_run. split; [apply Inv_empty|intros c ns []]. Qed.
 
   (* ------------------------------------------------------------------------------------------------ *)
   (* C07: collect                                                                                      *)
@@ -668,7 +726,7 @@ Section RegFacts.
   Lemma keys_step r o : Inv r ->
     map fst (c2n (fst (step r o))) = spec_step (map fst (c2n r)) o (snd (step r o)).
   Proof.
-    intro H. destruct o as [c|c|l]; simpl.
+    intro H. destruct o as [c|c|l|]; simpl; [| | |reflexivity].
     - fold (register r c). destruct (snd (register r c)) eqn:Eo.
       + rewrite register_fail_fst by congruence. reflexivity.
       + rewrite (register_ok_shape r c Eo). simpl. rewrite (d_set_keys N.eqb), existsb_keys. reflexivity.
@@ -682,32 +740,11 @@ Section RegFacts.
 
   Lemma ti_step r o : ti (fst (step r o)) = spec_ti (ti r) o (snd (step r o)).
   Proof.
-    destruct o as [c|c|l]; simpl.
+    destruct o as [c|c|l|]; simpl; [| | |reflexivity].
     - unfold register_gen. destruct (existsb _ _); reflexivity.
     - unfold unregister. destruct (d_find _ _ _); [|reflexivity].
       destruct (del_names _ _) as [d' ok]. destruct ok; reflexivity.
     - unfold set_target_info. destruct (nonempty l) eqn:El; [destruct (_ && _)|]; reflexivity.
-  Qed.
-
-  Lemma run_spec ops : forall r, Inv r ->
-    map fst (c2n (run r ops)) = spec_keys (map fst (c2n r)) (trace env r ops)
-    /\ ti (run r ops) = spec_labels (ti r) (trace env r ops).
-  Proof.
-    induction ops as [|o ops IH]; intros r H; simpl; [split; reflexivity|].
-    destruct (IH (fst (step r o)) (Inv_step r o H)) as [I1 I2].
-    unfold spec_keys, spec_labels in *. simpl.
-    rewrite <- (keys_step r o H), <- (ti_step r o). split; assumption.
-  Qed.
-
-  Lemma collect_exact_history a ops :
-    let tr := trace env (empty_reg a) ops in
-    collect env (run (empty_reg a) ops)
-      = target_family (spec_labels [] tr) ++ flat_map (fun c => c_fams (env c)) (spec_keys [] tr)
-    /\ NoDup (spec_keys [] tr).
-  Proof.
-    intro tr. destruct (run_spec ops (empty_reg a) (Inv_empty a)) as [K T]. simpl in K, T.
-    rewrite collect_keys. fold tr in K, T. rewrite K, T. split; [reflexivity|].
-    rewrite <- K. pose proof (Inv_reachable a ops) as H. inv_destruct H. assumption.
   Qed.
 
   (* ------------------------------------------------------------------------------------------------ *)
@@ -872,7 +909,7 @@ Section RegFacts2.
 
   (* without any hypothesis on the collectors a restricted collection never yields anything that is not
      in the filter of the full collection *)
-  Lemma restricted_subset r ns f : Inv env r ->
+  Lemma restricted_subset r ns f : Inv r ->
     In f (snd (restricted env r ns)) -> In f (filter_collection ns (collect env r)).
   Proof.
     intros H. unfold restricted, restricted_gen. simpl snd. fold (select r ns).
@@ -947,16 +984,16 @@ Section RegFacts3.
 
   (* any call that raises leaves the registry exactly as it was; it raises ValueError, except that unregister of a
      collector that is not registered raises KeyError *)
-  Lemma failed_step_unchanged r o e : Inv env r -> snd (step env r o) = Some e ->
+  Lemma failed_step_unchanged r o e : Inv r -> snd (step env r o) = Some e ->
     fst (step env r o) = r
     /\ (e = ValueError \/ (e = KeyError /\ exists c, o = Unregister c /\ ~ registered r c)).
   Proof.
-    intros H Hs. destruct o as [c|c|l]; simpl in *.
-    - destruct (register_gen env get_names r c) as [r' o'] eqn:E. simpl in *. subst o'.
-      destruct (register_fail_unchanged env _ _ _ _ _ E) as [-> ->]. auto.
+    intros H Hs. destruct o as [c|c|l|]; simpl in *; [| | |discriminate].
+    - destruct (register_gen env get_names true r c) as [r' o'] eqn:E. simpl in *. subst o'.
+      destruct (register_fail_unchanged env _ _ _ _ _ _ E) as [-> ->]. auto.
     - destruct (d_find N.eqb (c2n r) c) as [ns|] eqn:Ef.
-      + apply (inv_find_c2n env r c ns H) in Ef.
-        destruct (unregister_registered env r c ns H Ef) as (d' & E & _). rewrite E in Hs. discriminate.
+      + apply (inv_find_c2n r c ns H) in Ef.
+        destruct (unregister_registered r c ns H Ef) as (d' & E & _). rewrite E in Hs. discriminate.
       + apply (d_find_none_iff N.eqb N_eqb_iff) in Ef.
         rewrite (unregister_unregistered r c Ef) in *. simpl in *. inversion Hs; subst.
         split; [reflexivity|]. right. split; [reflexivity|]. exists c. auto.
@@ -976,7 +1013,7 @@ Section RegFacts3.
   Qed.
 
   (* names are a set: order and repetition in the argument of restricted_registry do not matter *)
-  Lemma restricted_depends_on_name_set r ns ns' : Inv env r ->
+  Lemma restricted_depends_on_name_set r ns ns' : Inv r ->
     (forall c, registered r c -> well_described env r c) -> (forall n, In n ns <-> In n ns') ->
     Permutation (snd (restricted env r ns)) (snd (restricted env r ns'))
     /\ forall c, In c (fst (restricted env r ns)) <-> In c (fst (restricted env r ns')).
@@ -989,3 +1026,59 @@ Section RegFacts3.
       split; intros (Hr & n & Hi & Hc); (split; [exact Hr|exists n; split; [apply Hn; exact Hi|exact Hc]]).
   Qed.
 End RegFacts3.
+
+(* ------------------------------------------------------------------------------------------------ *)
+(* histories during which the collectors change: every step has its own environment                 *)
+(* ------------------------------------------------------------------------------------------------ *)
+Lemma run_as_dyn env ops : forall r, run env r ops = run_dyn r (map (pair env) ops).
+Proof.
+  induction ops as [|o ops IH]; intro r; simpl; [reflexivity|]. apply IH.
+Qed.
+
+Lemma Inv_run_dyn eops : forall r, Inv r -> Inv (run_dyn r eops).
+Proof.
+  induction eops as [|[e o] eops IH]; simpl; intros r H; [exact H|].
+  apply IH. apply (Inv_step e r o H).
+Qed.
+
+Lemma Inv_reachable_dyn a eops : Inv (run_dyn (empty_reg a) eops).
+Proof. apply Inv_run_dyn, Inv_empty. Qed.
+
+Lemma run_dyn_spec eops : forall r, Inv r ->
+  map fst (c2n (run_dyn r eops)) = spec_keys (map fst (c2n r)) (trace_dyn r eops)
+  /\ ti (run_dyn r eops) = spec_labels (ti r) (trace_dyn r eops).
+Proof.
+  induction eops as [|[e o] eops IH]; intros r H; simpl; [split; reflexivity|].
+  destruct (IH (fst (step e r o)) (Inv_step e r o H)) as [I1 I2].
+  unfold spec_keys, spec_labels in *. simpl.
+  rewrite <- (keys_step e r o H), <- (ti_step e r o). split; assumption.
+Qed.
+
+Lemma collect_exact_history e a eops :
+  let tr := trace_dyn (empty_reg a) eops in
+  collect e (run_dyn (empty_reg a) eops)
+    = target_family (spec_labels [] tr) ++ flat_map (fun c => c_fams (e c)) (spec_keys [] tr)
+  /\ NoDup (spec_keys [] tr).
+Proof.
+  intro tr. destruct (run_dyn_spec eops (empty_reg a) (Inv_empty a)) as [K T]. simpl in K, T.
+  rewrite collect_keys. fold tr in K, T. rewrite K, T. split; [reflexivity|].
+  rewrite <- K. pose proof (Inv_reachable_dyn a eops) as H.
+  destruct H as (_ & Hnc & _). exact Hnc.
+Qed.
+
+(* F20: collector 0 describes x, is registered, then describes y and is registered again (no clash), then is
+   unregistered: with the pinned register (names overwritten) x stays taken although nothing is registered *)
+Definition f20_env1 (c : cid) : cbeh := mk_cbeh (Some [(NAME_x, TGauge)]) [].
+Definition f20_env2 (c : cid) : cbeh := mk_cbeh (Some [([121], TGauge)]) [].
+
+Lemma reregister_orig_refuted :
+  exists eops n,
+    let r := run_dyn_gen get_names false (empty_reg false) eops in
+    c2n r = [] /\ ti r = [] /\ In n (map fst (n2c r)).
+Proof.
+  exists [(f20_env1, Register 0); (f20_env2, Register 0); (f20_env2, Unregister 0)], NAME_x.
+  vm_compute. repeat split. left; reflexivity.
+Qed.
+
+(* to instantiate the unused section variable of env-free lemmas proved inside a section *)
+Definition no_env : cid -> cbeh := fun _ => mk_cbeh None [].
